@@ -53,7 +53,7 @@ def run(tier="quick"):
     for rid, txt in (("W1", "capacity > index through every doubling"), ("B1", "fixed-buffer writes bounded"),
                      ("E1", "spawning only in builtin_exec / %preproc"), ("E2", "builtin_exec reachable only via \"exec\" and backquote"),
                      ("T1", "temp file protocol"), ("L1", "init resets every index/capacity"), ("L2", "free leaves nothing dangling"),
-                     ("L3", "no local allocation leaks"), ("L5", "blocks owned by a file-stack entry are released when it is popped"), ("S1", "sizeof(T) * n byte counts use the element type of the block they size"), ("I1", "no uninitialised local")):
+                     ("L3", "no local allocation leaks"), ("P8", "a stream of the file stack that was closed is replaced or popped before the function returns"), ("L5", "blocks owned by a file-stack entry are released when it is popped"), ("S1", "sizeof(T) * n byte counts use the element type of the block they size"), ("I1", "no uninitialised local")):
         chk.rule(rid, txt)
     prog = facts.extract()
     u = prog.units.get("conf.c")
@@ -105,6 +105,8 @@ def run(tier="quick"):
     # F1 message formats
     nfmt = R.check_format_args(chk, [prog.units[x] for x in ("conf.c", "file.c") if x in prog.units], "F1")
     chk.count("format_call_sites", nfmt, floor=40)
+    # P8 a closed stream does not stay in the file stack
+    chk.count("file_stack_closes", R.check_closed_stream_replaced(chk, u, rule="P8"), floor=2)
     # L5 what a file-stack entry owns is released at its pop
     nst = R.check_stack_field_release(chk, prog, u, rule="L5")
     chk.count("owned_stack_fields", nst, floor=1)
